@@ -63,7 +63,7 @@ def linear_replay(factory_path, spec, schedule, shim=True, engine="ref", want_st
 class GFamily:
     """description of one G-mode family check"""
     def __init__(self, graph_module, trace_module, factory_path, hint=None, spec_name="Spec",
-                 trace_invariants=None, clause_map=None, shim=True, describe=None):
+                 trace_invariants=None, clause_map=None, shim=True, describe=None, fmt="record"):
         self.graph_module = graph_module
         self.trace_module = trace_module
         self.factory_path = factory_path
@@ -72,6 +72,7 @@ class GFamily:
         # clause (G-mode invariant / property name) -> T-mode invariant name
         self.clause_map = clause_map or {}
         self.shim = shim
+        self.fmt = fmt
         self.describe = describe or (lambda spec: json.dumps(spec, sort_keys=True))
 
 
@@ -92,7 +93,7 @@ def run_batches(fam, report, batches, invariants, properties, log=print, crossch
             gl = GraphLoop(fam.graph_module, fam.factory_path, remaining, invariants=invariants,
                            properties=properties, hint=fam.hint, spec_name=fam.spec_name, shim=fam.shim,
                            log=log, tlc_timeout=tlc_timeout, spec_budget=spec_budget, heap=heap,
-                           total_budget=total_budget)
+                           total_budget=total_budget, fmt=fam.fmt)
             try:
                 res = gl.run()
                 st = gl.stats()
@@ -140,7 +141,7 @@ def run_batches(fam, report, batches, invariants, properties, log=print, crossch
                 raise MachineryError("counterexample to %s on %s does not reproduce in linear replay (got %r)"
                                      % (clause, fam.describe(spec), [f["clause"] for f in fails]))
             tclause = hit[0]["clause"]
-            sig = {"dut": spec, "clause": tclause}
+            sig = {"dut": spec, "clause": tclause, "gclause": (res.temporal_name if clause == "temporal" else clause)}
             text = "%s violated by %s after %d cycles%s" % (
                 tclause, fam.describe(spec), len(prefix),
                 " (lasso, loop of %d cycles repeated forever)" % len(loop) if loop else "")
@@ -150,7 +151,7 @@ def run_batches(fam, report, batches, invariants, properties, log=print, crossch
                                    "trace_module": fam.trace_module, "trace_invariants": tinv,
                                    "observed": ev[:2000], "clause": tclause}, text)
             nviol += 1
-            if not new and (followup or spec.get("followup")):
+            if not new and (followup or spec.get("followup")) and not spec.get("nofollowup"):
                 # a listed known finding: the rest of this DUT's clauses are still explored,
                 # in a follow-up run without the clause that is known to fail
                 if clause == "temporal":
